@@ -151,8 +151,14 @@ func (c *caseT) round2(m *member) {
 	enc, err := tss.ComputeEncryptedSecretShares(m.id, m.r1.OneTimePrivKey, pubs, m.r1.Coefficients, tss.DefaultNonce16Generator{})
 	fx.Must(err)
 	dev := ""
+	malformed := []int{}
 	if !m.honest && len(enc) > 0 && r.Chance(1, 2) {
-		switch r.Intn(3) {
+		switch r.Intn(4) {
+		case 3: // a share that is not 48 bytes, at any position (message validation must reject the whole submission)
+			k := r.Intn(len(enc))
+			enc[k] = tss.EncSecretShare(r.Bytes(r.PickInt(0, 1, 47, 49, 96)))
+			malformed = append(malformed, k)
+			dev = "malformed-share"
 		case 0, 1: // corrupt the share of one recipient
 			k := r.Intn(len(enc))
 			e2 := append(tss.EncSecretShare{}, enc[k]...)
@@ -192,13 +198,16 @@ func (c *caseT) round2(m *member) {
 		ks, err := tss.ComputeSecretSym(o.r1.OneTimePrivKey, m.r1.OneTimePubKey)
 		fx.Must(err)
 		sh, err := tss.DecryptSecretShare(enc[slot], ks)
+		if err != nil && len(malformed) > 0 {
+			continue // a malformed share decrypts to nothing
+		}
 		fx.Must(err)
 		truth = append(truth, []any{uint64(o.id), uint64(slot), hx(sh)})
 	}
 	if e == "" {
 		m.r2Sent = true
 	}
-	c.emit(fx.M{"op": "r2", "mid": uint64(m.id), "sender": who, "sharesLen": len(enc), "truthShares": truth}, e)
+	c.emit(fx.M{"op": "r2", "mid": uint64(m.id), "sender": who, "sharesLen": len(enc), "truthShares": truth, "malformedSlots": malformed}, e)
 }
 
 func (c *caseT) groupResult() *cylclient.GroupResult {
